@@ -530,7 +530,7 @@ def _is_m110(data):
 
 
 def run_direct(stmts, acks, status=None, late_hs=False, settle=0.02, do_disconnect=True, readings=False,
-               deadline=2.5, mode="serial", lose_at=0, slow=None, lose_idle_after=0, instant=()):
+               deadline=2.5, mode="serial", lose_at=0, slow=None, lose_idle_after=0, instant=(), idle_lines=None):
     """Drive the real SerialWriter/PrintrunWriter. stmts: list of bytes handed to write(); acks: the reply line
     (bytes) the device gives to each statement; status: {k: [lines pushed before the ack of statement k]};
     late_hs: the ok of the second start-up M110 is released only after the first write() began."""
@@ -653,6 +653,12 @@ def run_direct(stmts, acks, status=None, late_hs=False, settle=0.02, do_disconne
                 if lose_at == k:
                     do_disconnect = False
                     break
+                for line in (idle_lines or {}).get(k, []):
+                    # the device says something (an alarm) while no statement is outstanding
+                    before = hub.nrel_seen
+                    hub.push(bytes(line))
+                    await_(lambda: hub.nrel_seen > before, 1.0)
+                    time.sleep(0.01)
                 if lose_idle_after == k:
                     with hub.lock:             # the link drops while nothing is in flight; the next write() must raise
                         hub.closed = True
